@@ -786,9 +786,6 @@ func (graph *Graph) zeroNode(n INode) {
 	nn.changedAt = 0
 	nn.recomputedAt = 0
 
-	// mirror how we initialized the node
-	nn.valid = true
-
 	nn.parents = nil
 	nn.children = nil
 	// the slices above may have been backed by storage inside the node, which
